@@ -1343,6 +1343,12 @@ def _exists(I, recv, args, kw):
 @meth("path", "is_file")
 def _is_file(I, recv, args, kw):
     ex = I.ex
+    if not ex.pure:
+        # is_file() swallows "no such file" but not every OSError: a component longer than the file system allows (ENAMETOOLONG)
+        # or an embedded problem of the mount raises
+        I.use("Path.is_file(): True/False, or OSError for a name the file system cannot look up (e.g. ENAMETOOLONG)")
+        if ex.decide(ex.fresh("is_file_oserror", "bool").t):
+            ex.raise_builtin("OSError", "File name too long")
     if not hasattr(recv, "isfile"):
         recv.isfile = ex.fresh("is_file", "bool").t
     return SBool(recv.isfile)
